@@ -288,7 +288,7 @@ func c19Suppressors(c *Ctx, builders []*builder) {
 			}
 			okInit := false
 			for _, g := range pd.ControlDepsTransitive(st.Block()) {
-				if g.Branch && boolFromCompare(fn, g.If.Cond, "initialize", 0) {
+				if g.Branch && boolFromCompare(c, fn, g.If.Cond, "initialize", 0) {
 					okInit = true
 				}
 			}
